@@ -35,6 +35,10 @@ func propC02(c *Ctx) {
 	c.nsOnlyFields = true
 	c.ruleCollectBeforeUse()
 	c.nsOnlyFields = false
+	// what is computed for one directive must not be handed to another: memo keys cover what the value depends on,
+	// and a position identifies a body only together with its file
+	c.ruleMemoCoverage("C02-MEMO-KEY-COVERS")
+	c.rulePositionNeedsFile("C02-POSITION-NEEDS-FILE")
 }
 
 // ---------- parameter keys ----------
